@@ -113,10 +113,10 @@ PROPS["C13"] = {
 
 PROPS["C14"] = {
     "level_text": "Theorems (Props/C14.v): each query-result decoder is total (Ok or Err, never out of bounds) on every payload and returns the reference decoding: device id from the last 4 bytes of a 4- or 8-byte payload else Err; hardware version from exactly 2 bytes else Err; product code = payload minus leading/trailing ASCII whitespace (characterised, not restated); output / CAN configurations per C13 / C15; CAN bus configuration Err below 4 bytes. The command table (request, awaited acknowledge, decoder) is regenerated from client.go and proved equal to the protocol table. Correspondence through the real client: six queries x payload lengths 0..254.",
-    "level_note": "Trusted: Coq kernel, hand-written decoder models (validated by correspondence), translator (command table), strings.TrimSpace modelled on ASCII input only, harness. No axioms.",
+    "level_note": "Trusted: Coq kernel, hand-written decoder models (validated by correspondence), translator (command table), strings.TrimSpace modelled on ASCII input only, harness. No axioms. Tie T for the client's stateful core (Tie/ClientAgree.v): Client.Receive and Client.ScanMeasurementData as REGENERATED statement by statement from client.go on every run (Gen/ClientFns.v) are proved to agree with the model's receive / scan_md for every client state and every scanner step; the scanner step itself is the bufio model of C01.",
     "technique": "Rocq proof over Gallina decoder models + translator-generated command table + differential correspondence through Client.Get*",
     "props_file": "Props/C14.v",
-    "tie_files": ["Tie/CommandsAgree.v"],
+    "tie_files": ["Tie/ClientAgree.v", "Tie/CommandsAgree.v"],
     "eval_module": "Run.EvalConfig",
     "kinds": {"query": {"type": "case_query", "chk": "chk_query", "sig": "sig_query", "scope": "N_scope"}},
     "rule": "each of the six Get* commands run on a real client whose port delivers an unrelated frame then the acknowledge with the given payload: every length 0..24 (3 contents each below 10), every 8th length to 248, 250..254, one extended-length payload; product code payloads are printable ASCII padded with all six ASCII whitespace characters; a returned value together with an error counts as a panic-class failure. non-trivial = non-empty payload; distinct = distinct case terms",
@@ -150,8 +150,9 @@ CLIENT_LEVEL_NOTE = "Trusted: Coq kernel; hand-written models of client.go, Scan
 
 PROPS["C03"] = {
     "level_text": "Theorem client_refines_spec (Props/C03.v): for every stream, read schedule (empty reads included), error convention and operation sequence, the model client - client.go rendered statement by statement over the bufio.Scanner model, with the dispatch table and size function regenerated from source - returns what the abstract client over the reference segmentation returns wherever the latter is defined (API protocol respected). On the abstract client: scan steps visit exactly the packets of the current measurement payload, once each, in wire order, true exactly for supported complete packets, then false for ever; at most |payload|/3 steps; after any receive no packet is current and everything scanned later belongs to the frame just delivered. Proof by a simulation relation preserved by every operation. Values: checked by the correspondence against a fresh decoding by the same Go type.",
-    "level_note": CLIENT_LEVEL_NOTE,
+    "level_note": CLIENT_LEVEL_NOTE + " Tie T for the client's stateful core (Tie/ClientAgree.v): Client.Receive and Client.ScanMeasurementData as REGENERATED statement by statement from client.go on every run (Gen/ClientFns.v) are proved to agree with the model's receive / scan_md for every client state and every scanner step; the scanner step itself is the bufio model of C01.",
     "technique": "Rocq refinement proof (simulation relation, induction over operation sequences) + differential correspondence on call sequences",
+    "tie_files": ["Tie/ClientAgree.v"],
     "props_file": "Props/C03.v",
     "eval_modules": ["Run.EvalClient"],
     "imports": ["XS.Lib.Bufio", "XS.Spec.ClientOps"],
@@ -162,10 +163,10 @@ PROPS["C03"] = {
 }
 PROPS["C08"] = {
     "level_text": "Theorems (Props/C08.v): the command table (request identifier, awaited identifier) regenerated from client.go equals the protocol table; step_refines covers commands, so any sequence of commands and receives on one client under any fragmentation behaves as the abstract client; on the abstract client: exactly one frame new_message(req, payload) is written (well-formed by C06), frames up to and including the first accepted frame with the awaited identifier are consumed skipping unrelated valid ones, that acknowledge is current (its packets scannable for go-to-measurement), the next receive yields the following frame; a failed write consumes nothing; no acknowledge => the end-of-stream cause.",
-    "level_note": CLIENT_LEVEL_NOTE,
+    "level_note": CLIENT_LEVEL_NOTE + " Tie T for the client's stateful core (Tie/ClientAgree.v): Client.Receive and Client.ScanMeasurementData as REGENERATED statement by statement from client.go on every run (Gen/ClientFns.v) are proved to agree with the model's receive / scan_md for every client state and every scanner step; the scanner step itself is the bufio model of C01.",
     "technique": "Rocq refinement proof + translator-generated command table + differential correspondence on command sequences",
     "props_file": "Props/C08.v",
-    "tie_files": ["Tie/CommandsAgree.v"],
+    "tie_files": ["Tie/ClientAgree.v", "Tie/CommandsAgree.v"],
     "eval_modules": ["Run.EvalClient"],
     "imports": ["XS.Lib.Bufio", "XS.Spec.ClientOps"],
     "kinds": {"client": CLIENT_KIND},
@@ -177,6 +178,7 @@ PROPS["C09"] = {
     "level_text": "Theorems (Props/C09.v): for every byte stream, read schedule and error convention, every observation the API protocol allows is a value, never a panic (client_refines_spec + the abstract client never asks for a panic); all model functions are total Gallina functions with explicit fuel and the fuel is shown sufficient (scan: mu+2, receive-until: pending+unread+2), so every call returns; at most |stream|/5 frames are delivered and at most |payload|/3 scan steps report a packet; every exported decoder model is total (never OOB/Panic). Partial: a port whose Read blocks for ever is outside any executable model.",
     "level_note": CLIENT_LEVEL_NOTE + " Runtime share not modelled: blocking reads.",
     "technique": "Rocq refinement proof + totality lemmas + differential correspondence on arbitrary / mutated streams",
+    "tie_files": ["Tie/ClientAgree.v"],
     "props_file": "Props/C09.v",
     "eval_modules": ["Run.EvalClient"],
     "imports": ["XS.Lib.Bufio", "XS.Spec.ClientOps"],
@@ -189,6 +191,7 @@ PROPS["C10"] = {
     "level_text": "Theorems (Props/C10.v): client_refines_spec for every prefix, failure point, error value, (n, err) convention (error with the last data or by its own read, 0-byte reads before it) and fragmentation; on the abstract client the receives deliver every complete frame of the prefix in order (accepted or rejected), never the incomplete tail, then the terminal cause on that and every later receive - the port's error when the reference segmentation does not end in TooLong (io.EOF = orderly end); a rejected frame is one element of that list, frames after it are delivered. The strict statement is refuted by computation for the oversize-header shape (finding K1, known_findings.txt).",
     "level_note": CLIENT_LEVEL_NOTE + " Finding K1 is recorded, not repaired: the check reports it as KNOWN-FINDING and fails for any other violation.",
     "technique": "Rocq refinement proof + refutation witness by vm_compute + differential correspondence with failure injection at every offset",
+    "tie_files": ["Tie/ClientAgree.v"],
     "props_file": "Props/C10.v",
     "eval_modules": ["Run.EvalClient"],
     "imports": ["XS.Lib.Bufio", "XS.Spec.ClientOps"],
